@@ -10,6 +10,9 @@ import (
 	"runtime/pprof"
 	"strconv"
 	"strings"
+	"sync/atomic"
+	"time"
+	"verif/harness/xplore"
 
 	"verif/harness/checks"
 	"verif/harness/ev"
@@ -62,6 +65,40 @@ func main() {
 	}
 	r := ev.NewRun(id, tier, seed, runtime.GOMAXPROCS(0))
 	r.ReplayFn = c.Replay
+	// Watchdog: a library call that never returns (an endless loop, a lock that is never released) stops a check
+	// that has no guard of its own around that call. If nothing at all is evaluated or explored during two
+	// consecutive windows, and some goroutine is inside the library, that is reported as a violation with the
+	// goroutine dump; without a library frame it is a failure of the harness.
+	window := 5 * time.Minute
+	if v, err := strconv.Atoi(os.Getenv("VERIF_WATCHDOG_SEC")); err == nil && v > 0 {
+		window = time.Duration(v) * time.Second
+	}
+	var running int32 = 1
+	go func() {
+		last, idle := int64(-1), 0
+		for atomic.LoadInt32(&running) == 1 {
+			time.Sleep(window)
+			now := atomic.LoadInt64(&r.Evaluations) + atomic.LoadInt64(&r.Transitions) + atomic.LoadInt64(&xplore.Beats) + atomic.LoadInt64(&checks.Beats)
+			if now != last {
+				last, idle = now, 0
+				continue
+			}
+			idle++
+			if idle < 2 || atomic.LoadInt32(&running) != 1 {
+				continue
+			}
+			buf := make([]byte, 4<<20)
+			buf = buf[:runtime.Stack(buf, true)]
+			text := fmt.Sprintf("no case was evaluated for %v\n%s", 2*window, buf)
+			if where := libraryFrame(string(buf)); where != "" {
+				path := ev.WriteCrash(id, tier, "library-call-does-not-return:"+where, text)
+				fmt.Printf("VIOLATION property=%s replay=%s\n  sig=library-call-does-not-return:%s\n  no case was evaluated for %v; a goroutine is inside %s\n", id, path, where, 2*window, where)
+				os.Exit(1)
+			}
+			fmt.Printf("HARNESS-ERROR: check %s made no progress for %v and no goroutine is inside the library\n%s\n", id, 2*window, buf)
+			os.Exit(2)
+		}
+	}()
 	func() {
 		defer func() {
 			if p := recover(); p != nil {
@@ -79,6 +116,7 @@ func main() {
 		}()
 		c.Run(r)
 	}()
+	atomic.StoreInt32(&running, 0)
 	rc := r.Finish()
 	if bf := os.Getenv("VERIF_BLOCKPROF"); bf != "" {
 		f, _ := os.Create(bf)
@@ -131,6 +169,20 @@ func libraryPanic(text string) string {
 	return ""
 }
 
+// libraryFrame returns the innermost library function found on any goroutine stack of a full dump.
+func libraryFrame(dump string) string {
+	for _, l := range strings.Split(dump, "\n") {
+		if strings.HasPrefix(l, "github.com/influxdata/influxql.") {
+			fn := strings.TrimPrefix(l, "github.com/influxdata/influxql.")
+			if k := strings.LastIndex(fn, "("); k > 0 {
+				fn = fn[:k]
+			}
+			return fn
+		}
+	}
+	return ""
+}
+
 func replay(path string) int {
 	b, err := os.ReadFile(path)
 	if err != nil {
@@ -142,7 +194,7 @@ func replay(path string) int {
 		fmt.Println("HARNESS-ERROR:", err)
 		return 2
 	}
-	if strings.HasPrefix(rf.Sig, "uncaught-panic-in-library:") {
+	if strings.HasPrefix(rf.Sig, "uncaught-panic-in-library:") || strings.HasPrefix(rf.Sig, "library-call-does-not-return:") {
 		fmt.Printf("crash record of %s (%s): the library panicked in a call the check does not guard; re-run `./check %s %s` to see whether it still does.\n%s\n", rf.Property, rf.Sig, rf.Property, rf.Tier, rf.Detail)
 		return 0
 	}
